@@ -837,6 +837,9 @@ func ruleSIB3(w *World) []Ob {
 				}
 			}
 			g := byAtom(live, atom)
+			if os.Getenv("GTCHECK_DEBUG") != "" {
+				fmt.Fprintf(os.Stderr, "DEBUG Row groups (%s): %v\n", atom, g)
+			}
 			if len(g["true"]) == 1 && g["true"][0] == "name(origin(wn))" && len(g["false"]) == 1 && g["false"][0] == `cat(branch(origin(wn))," ",name(origin(wn)))` && len(g["*"]) == 0 {
 				why = ""
 			}
@@ -1952,11 +1955,25 @@ func phiWeb(fn *ssa.Function, v ssa.Value) map[ssa.Value]bool {
 // hasNilGuard: the case lies on the side of a test where something is nil (a defensive early return).
 func hasNilGuard(c vcase) bool {
 	for a, pol := range c.conds {
-		if strings.Contains(a, "==nil)") && pol {
+		if pol && isNilTestAtom(a) {
 			return true
 		}
 	}
 	return false
+}
+
+// isNilTestAtom: "(x==nil)", or a phi of alternatives each of which is such a test.
+func isNilTestAtom(a string) bool {
+	if strings.HasPrefix(a, "phi{") && strings.HasSuffix(a, "}") {
+		for _, alt := range strings.Split(a[4:len(a)-1], ";") {
+			i := strings.LastIndex(alt, "?")
+			if i < 0 || !strings.HasSuffix(alt[i+1:], "==nil)") {
+				return false
+			}
+		}
+		return true
+	}
+	return strings.HasPrefix(a, "(") && strings.HasSuffix(a, "==nil)")
 }
 
 // nonNilCaseTerms: the distinct terms a function returns on the paths where no nil guard fired.
